@@ -166,6 +166,9 @@ def _develop_triangle_by_atas(triangle, resampled_atas) -> Triangle:
                         else None
                     )
                     for field, v in values.items()
+                    # only the selected fields have resampled factors; the others are
+                    # carried over as observed
+                    if field in resampled_atas[cell.dev_lag()]
                 },
             }
             cells.append(
